@@ -13,8 +13,9 @@
 (*   incr     old --flags,date--> out             (C05, C01, C14)          *)
 (*   calinfo  cal_info(day) = nine fields         (C14, C02)               *)
 (*   weekpat  is_valid_week_pattern(P)            (C14)                    *)
+(*   mono     renderings of two consecutive days  (C14)                    *)
 (***************************************************************************)
-EXTENDS TraceBase, BVVersion
+EXTENDS TraceBase, BVVersion, BVPep440
 
 VARIABLE l
 TraceInit == l = 1
@@ -87,6 +88,17 @@ CalVerdict(e) ==
   LET c == CalInfo(e.n) bad == {f \in CalFieldSet : c[f] # e.c[f]} IN
   IF bad = {} THEN Good ELSE <<"calinfo", [f \in bad |-> <<c[f], e.c[f]>>]>>
 
+\* two consecutive days rendered by the code through one calendar combination (C14)
+\*  e.t1, e.t2 : the code's renderings for day e.n and e.n + 1     e.lower : does the code's comparison say t2 < t1
+MonoVerdict(e) ==
+  LET c1 == CalInfo(e.n) @@ e.rest  c2 == CalInfo(e.n + 1) @@ e.rest IN
+  IF RenderDoc(c1, e.P) # e.t1 THEN <<"mono:render", RenderDoc(c1, e.P)>>
+  ELSE IF RenderDoc(c2, e.P) # e.t2 THEN <<"mono:render", RenderDoc(c2, e.P)>>
+  ELSE LET c == VerCmp(e.t1, e.t2) IN
+  IF (c = 1) # e.lower THEN <<"mono:comparison", c>>
+  ELSE IF e.coherent /\ c = 1 THEN <<"mono:backwards", c>>
+  ELSE Good
+
 WeekPatVerdict(e) == IF CoherentWeekPattern(e.P) = e.ok THEN Good ELSE <<"weekpat", CoherentWeekPattern(e.P)>>
 
 Verdict(e) ==
@@ -98,6 +110,7 @@ Verdict(e) ==
     [] e.ev = "incr"    -> IncrVerdict(e)
     [] e.ev = "calinfo" -> CalVerdict(e)
     [] e.ev = "weekpat" -> WeekPatVerdict(e)
+    [] e.ev = "mono"    -> MonoVerdict(e)
     [] OTHER -> <<"unknown-event", e.ev>>
 
 TraceNext == /\ l <= Len(Trace) /\ l' = l + 1
